@@ -108,7 +108,8 @@ CLAIMED = {
                     "measured child started and ends at the current cursor, with per-item cursors taken in the same loop iteration and "
                     "operators told the expression start (contract conformance); SPAN-PROV: path-sensitive provenance of "
                     "Input::span/span_from/slice/slice_from of all 9 input implementations equals the reviewed table (start<-range.start, "
-                    "end<-range.end / last token end / eoi); READER-SIB: next/next_maybe/next_ref of one input record the same cursor "
+                    "end<-range.end / last token end / eoi); SPAN-EMPTY: an empty range is never described by two different tokens "
+                    "(start of the following, recorded end of the preceding) - such a path must exclude range.start == range.end; READER-SIB: next/next_maybe/next_ref of one input record the same cursor "
                     "sub-fields; &str/grapheme cursors advance by the decoded item's length",
             "design_ref": "§4.3 RANGE-PROV, §5 C07", "note": NOTE,
             "technique": "static provenance analysis (flow- and path-sensitive) + automaton conformance"},
